@@ -1567,6 +1567,10 @@ class Interp:
             return Unk('string formatting (%s)' % ', '.join(repr(x_)[:50] for x_ in vals_), node)
         if isinstance(a, str) and isinstance(b, str) and isinstance(op, ast.Add):
             return a + b
+        if isinstance(op, ast.Add) and (isinstance(a, Shape) or isinstance(b, Shape)) and isinstance(a, (Shape, tuple)) and isinstance(b, (Shape, tuple)):
+            # (n,) + x.shape: a shape spelled as a tuple of extents
+            ext = lambda s_: tuple((1 if d_ is None else Arr((), alg.count(d_), unit=num(1))) for d_ in s_.dims) if isinstance(s_, Shape) else tuple(s_)
+            return ext(a) + ext(b)
         if isinstance(op, ast.Add) and (isinstance(a, Fmt) or isinstance(b, Fmt)) and isinstance(a, (str, Fmt)) and isinstance(b, (str, Fmt)):
             fa, va = (a.fmt, a.values) if isinstance(a, Fmt) else (a.replace('%', '%%'), ())
             fb, vb = (b.fmt, b.values) if isinstance(b, Fmt) else (b.replace('%', '%%'), ())
@@ -2418,6 +2422,8 @@ class Interp:
             if last == 'memmap' and 'shape' in kw:
                 # a fresh zero-initialised buffer of the given shape (storage class is not modelled)
                 args, last = [kw['shape']], 'zeros'
+            if last == 'result_type':
+                return Marker('dtype')
             if last in ('zeros', 'ones', 'empty'):
                 sh = args[0]
                 c = 1 if last == 'ones' else 0
@@ -2655,6 +2661,9 @@ class Interp:
                     return int(x)
                 if isinstance(x, (Arr, int, float)):
                     r_ = self._as_arr(x) if last not in ('int32', 'int64') else self._int(x, e)
+                    if isinstance(r_, Arr) and last in ('array', 'asarray', 'ascontiguousarray') and r_.unit is not None and not (r_.unit == num(1)) and not kw.get('subok'):
+                        # np.array / np.asarray of a Quantity is a plain array of its values in the unit it is stored in (the unit is dropped)
+                        r_ = r_.with_(poly=r_.poly * r_.unit.pow(-1), unit=num(1))
                     if isinstance(r_, Arr) and r_.ndim == 0:
                         if last == 'atleast_1d':
                             r_ = r_.with_(dims=(None,))          # an array of one element
